@@ -40,6 +40,23 @@ fn main() {
         return;
     }
     #[cfg(feature = "hook")]
+    if let Ok(pfx) = std::env::var("SYMORD_DEBUG_PREFIX") {
+        // debug: run one path of one scenario with the given decision values, several times, and print its decision points
+        use symord::rt::{Mode, Pending, Rt};
+        *bc_components::VERIF_ORDER_HOOK.write().unwrap() = Some(symord::rt::hook);
+        let prop = args.get(1).cloned().unwrap_or_default();
+        let scen = arg(&args, "--scenario").unwrap_or_default();
+        let f = find_scenario(&prop, &scen).expect("unknown scenario");
+        let values: Vec<u32> = pfx.split(',').filter(|x| !x.is_empty()).map(|x| x.trim().parse().unwrap()).collect();
+        for round in 0..5 {
+            let mut rtm = Some(Rt::new(Mode::Symbolic, seed()));
+            let (o, _) = engine::run_one_path(&mut rtm, f, Pending { values: values.clone(), sigs: vec![] });
+            let r = rtm.unwrap();
+            println!("round {}: outcome {:?} points {:?}", round, o, r.points.iter().map(|p| (p.sig.clone(), p.taken)).collect::<Vec<_>>());
+        }
+        return;
+    }
+    #[cfg(feature = "hook")]
     {
         let prop = args.get(1).cloned().unwrap_or_default();
         let tier = arg(&args, "--tier").or_else(|| std::env::var("VERIF_TIER").ok()).unwrap_or_else(|| "quick".into());
@@ -209,6 +226,7 @@ fn explore_property(prop: &str, tier: &str, only: Option<&str>) -> i32 {
                 "functions_encoded": p.scenarios.iter().find(|s| s.name == r.scenario).map(|s| s.api),
                 "paths": r.paths, "completed": r.completed, "cut_by_assume": r.skipped, "paths_with_order_fork": r.order_paths,
                 "forks": r.stats.forks, "solver_queries": r.stats.queries, "entailment_queries": r.stats.entail_queries, "pruned_unsat": r.stats.pruned,
+                "solver_answers_contradicted_by_closure_audit": r.stats.solver_disagreements, "solver_restarts": r.stats.solver_restarts,
                 "digest_comparisons_intercepted": r.stats.hook_calls, "answered_from_path_cache": r.stats.hook_cached,
                 "max_digest_symbols": r.max_syms, "max_decisions_on_a_path": r.max_depth,
                 "solver_time_s": r.stats.solver_ns as f64 / 1e9,
